@@ -352,7 +352,7 @@ SHAPE = {
 
 
 @st.composite
-def grammar(draw, regimes=("BOOL", "MT", "FREE", "QQ", "FLOAT"), shape=None, symbols=False, signed=False, tiny=False, weight_style=None, **kw):
+def grammar(draw, regimes=("BOOL", "MT", "FREE", "QQ", "FLOAT"), shape=None, symbols=False, signed=False, tiny=False, weight_style=None, cancel=False, **kw):
     regime = draw(st.sampled_from(list(regimes)))
     g = draw(raw_grammar(**kw))
     mode = shape or SHAPE.get(regime)
@@ -365,6 +365,20 @@ def grammar(draw, regimes=("BOOL", "MT", "FREE", "QQ", "FLOAT"), shape=None, sym
         # every series still converges absolutely); sums can now cancel to exactly zero
         g["rules"] = [[(F(-Fraction(w)) if draw(st.integers(0, 2)) == 0 else w), h, b] for w, h, b in g["rules"]]
         g["signed"] = True
+        if cancel and draw(st.integers(0, 2)) == 0:
+            # duplicate rules of opposite weight: the pair sums to exactly zero but both are still
+            # rules (k == 0: every empty rule gets its opposite, so that nothing is nullable *by
+            # weight* although empty rules exist; k == 1: one rule drawn at random)
+            k = draw(st.integers(0, 1))
+            rs = g["rules"]
+            if k == 0:
+                extra = [[F(-Fraction(w)), h, list(b)] for w, h, b in rs if len(b) == 0]
+            else:
+                w, h, b = rs[draw(st.integers(0, len(rs) - 1))] if rs else (None, None, None)
+                extra = [[F(-Fraction(w)), h, list(b)]] if rs else []
+            if extra:
+                g["rules"] = rs + extra
+                g["cancelling"] = True
     if tiny and regime == "FLOAT" and draw(st.integers(0, 5)) == 0:
         # positive but tiny weights (rare events): still part of the support
         g["rules"] = [[(draw(st.sampled_from(["1e-13", "3e-14", "1e-30", "1e-300"])) if draw(st.integers(0, 3)) == 0 else w), h, b] for w, h, b in g["rules"]]
@@ -384,6 +398,8 @@ def classify(g):
         out.add("terminals:" + g["symbols"])
     if g.get("signed"):
         out.add("signed_weights")
+    if g.get("cancelling"):
+        out.add("cancelling_duplicates")
     if g.get("tiny"):
         out.add("tiny_positive_weights")
     N0 = cfgref.nullable_set(rules, V)
